@@ -85,11 +85,30 @@ def read(a):
                           if not isinstance(x, (float, np.floating))]}
 
 
+def build_rmv(case):
+    """the repeated measurement of a case (after the earlier object of the same readings, if the case has one)"""
+    import qexpy as q
+    keep = None
+    if case.get("before"):
+        with warnings.catch_warnings():
+            warnings.simplefilter("ignore")
+            keep = sl.build(["repeated", case["xs"], case["before"]["errs"], case.get("container", "list")])
+            for s in case["before"]["sels"]:
+                getattr(keep, SEL_METHOD[s])()
+            _ = (2 * keep).error
+    opts = {"etype": case["etype"]} if case.get("etype") else {}
+    a = sl.build(["repeated", case["xs"], case["errs"], case.get("container", "list"), opts])
+    if case.get("prop_first"):
+        d = fx(case["k"]) * a + fx(case["c"])
+        _ = d.value, d.error, str(d)
+    return a, keep
+
+
 def run_rmv(case):
     """-> (obs0, mc samples of the fresh object, [(sel, warned, obs, (dvalue, derror), mc samples)])"""
     import qexpy as q
     q.set_error_method("derivative")
-    a = sl.build(["repeated", case["xs"], case["errs"], case.get("container", "list")])
+    a, keep = build_rmv(case)                       # noqa: F841
     k, c = fx(case["k"]), fx(case["c"])
     offs = case_offsets(case)
     obs0 = read(a)
@@ -137,7 +156,7 @@ def gen_errs(rng, n):
     if u < 0.28:
         return None
     if u < 0.45:
-        return hx(sl.dyadic(rng, 4, 4, positive=True, nonzero=True))
+        return hx(rng.choice([1.0, sl.dyadic(rng, 4, 4, positive=True, nonzero=True), sl.dyadic(rng, 4, 4, positive=True, nonzero=True)]))
     if u < 0.5:
         return hx(0.0)
     errs = [sl.dyadic(rng, 5, 5, positive=True, nonzero=True) for _ in range(n)]
@@ -189,9 +208,25 @@ def gen_rmv(rng, pow2=False):
         else:
             errs = scale_errs(errs, tiny)
     sels = [rng.choice(["std", "eom", "ewm", "perr"]) for _ in range(rng.choice([0, 1, 2, 3, 4, 6, 9]))]
-    return {"xs": [hx(x) for x in xs], "errs": errs, "container": container,
-            "k": hx(sl.dyadic(rng, 4, 2, nonzero=True)), "c": hx(sl.dyadic(rng, 5, 1) * scale), "sels": sels,
+    k = rng.choice([1.0, -1.0, 2.0, 10.0]) if rng.random() < 0.2 else sl.dyadic(rng, 4, 2, nonzero=True)
+    c = 0.0 if rng.random() < 0.15 else sl.dyadic(rng, 5, 1) * scale
+    case = {"xs": [hx(x) for x in xs], "errs": errs, "container": container,
+            "k": hx(k), "c": hx(c), "sels": sels,
             "offsets": [hx(o) for o in sl.gen_offsets(rng)], "mc_seed": rng.randrange(2 ** 32), "scale": hx(scale)}
+    w = rng.random()
+    if errs is not None and w < 0.3:                # the uncertainties as numpy array / ints / numpy scalar / Fraction
+        if isinstance(errs, list):
+            case["etype"] = rng.choice(["ndarray", "int"])
+        else:
+            e = fx(errs)
+            case["etype"] = rng.choice(["float64", "fraction", "int" if e.is_integer() else "float64",
+                                        "float32" if sl.representable(e, "float32") else "float64"])
+    if rng.random() < 0.25:                         # an earlier object with the same readings, other uncertainties, kept alive
+        case["before"] = {"errs": scale_errs(gen_errs(rng, len(xs)), 2.0 ** round(math.log2(scale))),
+                          "sels": [rng.choice(["std", "ewm", "perr"]) for _ in range(rng.randrange(0, 3))]}
+    if rng.random() < 0.3:
+        case["prop_first"] = True                   # the object is used in a calculation before any of its statistics is read
+    return case
 
 
 def gen_pair(rng):
@@ -214,9 +249,11 @@ def gen_pair(rng):
         m = rng.choice([j for j in (2, 3, 4, 5, 7) if j != n])
         ys = sl.gen_readings(rng, n=m, kind="small")
         kind = "unequal-length"
-    else:
+    elif u < 0.96:
         ys = [sl.dyadic(rng, 5, 1)] * n
         kind = "zero-spread"
+    else:
+        ys, kind, k = list(xs), "identical", 1.0    # two distinct objects with the same readings
     if rng.random() < 0.35:                          # either array at another magnitude (exact: powers of two)
         fx_, fy_ = rng.choice(POW2_SCALES + [1.0]), rng.choice(POW2_SCALES + [1.0])
         xs, ys = [x * fx_ for x in xs], [y * fy_ for y in ys]
@@ -333,6 +370,9 @@ def correspondence(ctx):
                                        ("individual-with-zero" if any(fx(h) == 0 for h in e) else "individual"))
         res.count("rmv:n={}".format(len(case["xs"])))
         res.count("rmv:container:" + case.get("container", "list"))
+        for key in ("etype", "before", "prop_first"):
+            if case.get(key):
+                res.count("rmv:" + key + ((":" + case[key]) if key == "etype" else ""))
         sc = fx(case.get("scale", hx(1.0)))
         res.count("rmv:scale:" + ("1" if sc == 1 else "{:.0e}".format(sc)))
         if e is not None:
@@ -495,7 +535,7 @@ def check_rmv_oracle(case):
     valid = all(s > 0 for s in ss)
     matol = Fraction(1, 10 ** 12) * sum((abs(x) for x in xs), Fraction(0)) / n      # mean-like numbers may cancel to ~0
     q.set_error_method("derivative")
-    a = sl.build(["repeated", case["xs"], case["errs"], case.get("container", "list")])
+    a, keep = build_rmv(case)                       # noqa: F841
     k, c = fx(case["k"]), fx(case["c"])
 
     def stats(where):
@@ -633,6 +673,11 @@ def shrink_rmv(case):
     def fails(c):
         return check_rmv_oracle(c) is not None
     cur = dict(case)
+    for key in ("before", "prop_first", "etype"):
+        if key in cur:
+            cand = {k_: v for k_, v in cur.items() if k_ != key}
+            if fails(cand):
+                cur = cand
     sels = shrink_list(cur["sels"], lambda s: fails(dict(cur, sels=s)))
     cur["sels"] = sels
     idx = list(range(len(cur["xs"])))
@@ -643,6 +688,8 @@ def shrink_rmv(case):
         c = dict(cur, xs=[cur["xs"][i] for i in ix])
         if isinstance(cur["errs"], list):
             c["errs"] = [cur["errs"][i] for i in ix]
+        if cur.get("before") and isinstance(cur["before"]["errs"], list):
+            c["before"] = dict(cur["before"], errs=[cur["before"]["errs"][i] for i in ix])
         return c
     keep = shrink_list(idx, lambda ix: sub(ix) is not None and fails(sub(ix)))
     return sub(keep) or cur
